@@ -18,6 +18,11 @@ def sym(c, P):
     return c - P if c > P // 2 else c
 
 
+def core_hash(text):
+    import hashlib
+    return hashlib.sha256(text.encode()).hexdigest()[:16]
+
+
 class UF:
     def __init__(self):
         self.p = {}
@@ -629,9 +634,11 @@ class Enc:
                 self.table_pred(lk, table, rows, symidx, atoms)
 
     def table_pred(self, lk, table, rows, symidx, atoms):
-        key = ("tbl", lk["name"], tuple(symidx), len(rows))
-        name = self.monos.get(key)
         proj = sorted(set(tuple(r[i] for i in symidx) for r in rows))
+        # the key must identify the SELECTED ROW SET: two inputs of one lookup whose constant components select
+        # different row sets of equal size must not share a predicate (found by the C19 multi-automaton shapes)
+        key = ("tbl", lk["name"], tuple(symidx), len(rows), core_hash(repr(proj)))
+        name = self.monos.get(key)
         if name is None:
             name = f"tbl{len(self.monos)}"
             self.monos[key] = name
